@@ -47,7 +47,9 @@ WILD = ['*/*', 'application/*', 'text/*', '*/json', 'app*/*son']
 NEAR = ['application/jso', 'application/jsonl', 'application/json-seq', 'pplication/json', 'xapplication/json', 'text/cs',
         'text/csvx', 'ext/csv', 'text/c']
 NEARWILD = ['*/jso', 'app*/js', '*/json*', 'text/c*', '*ext/csv', '*/cs', 't*/c', '*/*v', 'application/*l']
-OPTS = [('format', 'pandas-records'), ('format', 'pandas-split'), ('charset', 'utf-8'), ('a', 'x'), ('a', 'y')]
+OPTS = [('format', 'pandas-records'), ('format', 'pandas-split'), ('charset', 'utf-8'), ('a', 'x'), ('a', 'y'),
+        # option values are compared as they are: other spellings of the same letters are other values
+        ('format', 'PANDAS-SPLIT'), ('format', 'Pandas-Records'), ('a', 'X'), ('charset', 'UTF-8')]
 QS = [None, '1', '1.0', '0.9', '0.5', '0.50', '0.1', '0', '0.001']
 
 
@@ -65,7 +67,7 @@ def shards(tier):
 
 def floors(tier):
     scale = 1 if tier == 'quick' else 12
-    return {'parse_checked': 2000 * scale, 'match_checked': 9000, 'encoder_checked': 300 * scale, 'codec_checked': 20}
+    return {'parse_checked': 2000 * scale, 'match_checked': 15000, 'encoder_checked': 300 * scale, 'codec_checked': 20}
 
 
 # ---------------------------------------------------------------- oracle
@@ -303,7 +305,8 @@ def run(ctx):
                               {'header': header})
     ctx.sample({'header': header, 'parsed': [as_pair(e) for e in layout.Encoding.parse(header)]})
     # -------- match: all pairs over the universe (every shard does a slice)
-    optsets = [{}, {'a': 'x'}, {'a': 'y'}, {'a': 'x', 'format': 'pandas-records'}, {'format': 'pandas-records'}]
+    optsets = [{}, {'a': 'x'}, {'a': 'y'}, {'a': 'x', 'format': 'pandas-records'}, {'format': 'pandas-records'}, {'a': 'X'},
+               {'format': 'PANDAS-RECORDS'}]
     index = 0
     for pk, po, ck, co in itertools.product(KINDS + WILD + NEAR + NEARWILD, optsets, KINDS + NEAR, optsets):
         index += 1
@@ -311,6 +314,7 @@ def run(ctx):
             check_match(ctx, layout, (pk, po), (ck, co))
     # -------- decoder lookups over concrete encodings
     decopts = [{}, {'format': 'pandas-records'}, {'format': 'pandas-split'}, {'format': 'nonsense'}, {'charset': 'utf-8'},
+               {'format': 'PANDAS-SPLIT'}, {'format': 'Pandas-Records'},
                {'format': 'pandas-columns', 'charset': 'utf-8'}]
     for kind, opts in itertools.product(KINDS + NEAR + ['application/*'], decopts):
         check_decoder(ctx, layout, codec, (kind, opts))
